@@ -1635,8 +1635,8 @@ func (b *Bitmap) unmarshalPilosaRoaring(data []byte) error {
 		// Unmarshal the op and apply it.
 		var opr op
 		if err := opr.UnmarshalBinary(buf); err != nil {
-			// FIXME(benbjohnson): return error with position so file can be trimmed.
-			return err
+			// Report the position so the file can be trimmed.
+			return &OpLogError{Err: err, Offset: int64(len(data) - len(buf))}
 		}
 
 		opr.apply(b)
@@ -1651,6 +1651,19 @@ func (b *Bitmap) unmarshalPilosaRoaring(data []byte) error {
 
 	return nil
 }
+
+// OpLogError is returned (possibly wrapped) by UnmarshalBinary when the
+// snapshot part of Pilosa-format data decoded but the operation log after it
+// stops being readable at Offset: a torn or corrupt trailing operation, such
+// as a crash in the middle of an append leaves behind. The operations before
+// Offset have been applied, and the first Offset bytes are a valid encoding.
+type OpLogError struct {
+	Err    error
+	Offset int64
+}
+
+// Error returns the message of the underlying decoding error.
+func (e *OpLogError) Error() string { return e.Err.Error() }
 
 // writeOp writes op to the OpWriter, if available.
 func (b *Bitmap) writeOp(op *op) error {
